@@ -332,7 +332,7 @@ func c09OptionChange(c *ev.Ctx) {
 								err = fmt.Errorf("panic: %v", r)
 							}
 						}()
-						w := lz4.NewWriter(&countSink{})
+						w := lz4.NewWriter(&countSink{limit: 4*len(input) + 1<<20})
 						if err = w.Apply(oa.options(len(input))...); err != nil {
 							return
 						}
@@ -340,7 +340,7 @@ func c09OptionChange(c *ev.Ctx) {
 						if !abandon {
 							w.Close()
 						}
-						sink := &countSink{}
+						sink := &countSink{limit: 4*len(input) + 1<<20}
 						w.Reset(sink)
 						if err = w.Apply(ob.options(len(input))...); err != nil {
 							return
@@ -401,7 +401,7 @@ func c09ReusedWriter(c *ev.Ctx) {
 			}
 			input := in.build()
 			w := ws[o.Conc]
-			sink := &countSink{}
+			sink := &countSink{limit: 4*len(input) + 1<<20}
 			var err error
 			func() {
 				defer func() {
@@ -415,7 +415,7 @@ func c09ReusedWriter(c *ev.Ctx) {
 				} else {
 					if n%3 == 1 {
 						// abandon a frame first: data written, no Close, then Reset (pending data is dropped)
-						junk := &countSink{}
+						junk := &countSink{limit: 4*len(input) + 1<<20}
 						w.Reset(junk)
 						w.Write(input[:len(input)/2])
 					}
